@@ -394,6 +394,44 @@ def header_fields(vc, req):
     return [list(x.items) if isinstance(x, STuple) else list(x) for x in (f.items if isinstance(f, (STuple, SList)) else f)]
 
 
+@scenario("response.same_name_twice", functions=[SC + ".response", M + ":ckey"])
+def s_response_two(vc):
+    """one response with two Set-Cookie fields of the SAME name and different paths (a server re-scoping a cookie): every field is
+    processed, in order (RFC 6265 5.3: per set-cookie-string)"""
+    e1, e2 = vc.case("expired", [(False, True), (True, False), (False, False), (True, True)])
+    p1, p2 = vc.case("paths", [("/app", "/"), ("/", "/app"), ("/", "/")])
+    host, port = vc.sym_str("host"), vc.sym_int("port", lo=0, hi=65535)
+    name, old, v1, v2 = vc.sym_str("name"), vc.sym_str("old"), vc.sym_str("value1"), vc.sym_str("value2")
+    pre = [((host, port, "/"), [(name, old)])]
+    jar = mk_jar(vc, pre)
+    a1 = vc.new("mitmproxy.net.http.cookies:CookieAttrs", fields=(("Path", p1),))
+    a2 = vc.new("mitmproxy.net.http.cookies:CookieAttrs", fields=(("Path", p2),))
+    flow = mk_req_flow(vc, host, port)
+    flow.response = mk_response(vc)
+    addon = vc.new(SC, jar=jar, flt=vc.new("mitmproxy.flowfilter:FAll"))
+    vc.summary("mitmproxy.http:Response._get_cookies", lambda v, self_: v.lift(((name, (v1, a1)), (name, (v2, a2)))))
+    exp_calls = []
+
+    def is_expired(v, at):
+        exp_calls.append(at)
+        return e1 if at is a1 else e2
+
+    vc.summary("mitmproxy.net.http.cookies:is_expired", is_expired)
+    dm_calls = []
+    install_dm_stub(vc, dm_calls, [True, True])
+    out = vc.call(SC + ".response", addon, flow)
+    vc.ensure("no_exception", out.ok)
+    if not out.ok:
+        return
+    vc.ensure("both_fields_processed_in_order", len(exp_calls) == 2 and exp_calls[0] is a1 and exp_calls[1] is a2 and len(dm_calls) == 2)
+    # reference: the jar after processing the two set-cookie-strings one after the other (paths concrete, one cookie name)
+    ref = [["/", old]]
+    for path, val, expired in ((p1, v1, e1), (p2, v2, e2)):
+        ref = [e for e in ref if e[0] != path] if expired else ([[q, (val if q == path else w)] for q, w in ref] if any(q == path for q, _ in ref) else ref + [[path, val]])
+    want = [([host, port, q], [(name, w)]) for q, w in ref]
+    vc.ensure("jar_is_the_result_of_both_fields", deep_eq(vc, jar_snapshot(vc, addon.jar), want))
+
+
 @scenario("request", functions=[SC + ".request"])
 def s_request(vc):
     has_flt = vc.case("filter_set", [True, False])
@@ -703,7 +741,7 @@ def bounded(tier, seed):
                             undotted = dattr is not None and not dattr.startswith(".") and host.lower() != dattr.lower()
                             both = exp.startswith("Expires=") and "Max-Age" in exp
                             b.fail("sticky.expired_cookie_removed.undotted_domain_from_subdomain[KF-C54-4]" if undotted else
-                                   "sticky.expired_cookie_removed.max_age_overridden_by_expires[KF-C54-5]" if both else "sticky.expired_cookie_removed", inp, f"jar[{key}] = {after[key]}")
+                                   "sticky.expired_cookie_removed.max_age_overridden_by_expires" if both else "sticky.expired_cookie_removed", inp, f"jar[{key}] = {after[key]}")
                         if key in after and not after[key]:
                             b.fail("sticky.empty_entry_dropped", inp, f"jar keeps empty entry {key}")
                     elif ok is True and not stored and (dattr is None or (dattr.startswith(".") and not _ref_is_ip(host.lower()) and host.lower() != dattr.lower().strip("."))):
@@ -753,4 +791,55 @@ def bounded(tier, seed):
                 b.case((tuple(resps), qhost, qport, qtarget), nontrivial=nontrivial)
 
     asyncio.run(run())
+    asyncio.run(_bounded_multi_set_cookie(b))
     return b
+
+
+async def _bounded_multi_set_cookie(b):
+    """responses carrying several Set-Cookie fields, also of the same name (re-scoping / deleting a cookie in one response)"""
+    import itertools
+
+    from mitmproxy import http
+    from mitmproxy.addons import stickycookie
+    from mitmproxy.test import taddons, tflow, tutils
+
+    expire_forms = ["Max-Age=0", "Max-Age=-1", "Expires=Thu, 01 Jan 1970 00:00:00 GMT"]
+    sc = stickycookie.StickyCookie()
+    with taddons.context(sc) as tctx:
+        tctx.configure(sc, stickycookie=".*")
+        fields = [("new", "/app", None), ("new", "/", None), ("new", None, None)] + [("gone", pth, ex) for pth in ("/", "/app", None) for ex in expire_forms]
+        for first_path in (None, "/", "/app"):
+            for f1, f2 in itertools.permutations(fields, 2):
+                for other_first in (False, True):
+                    sc.jar.clear()
+                    ref = {}       # (name, path) -> value, per RFC 6265 5.3 processed field by field (host example.com:80 throughout)
+
+                    def apply(name, value, path, exp):
+                        k = (name, path if path is not None else "/")
+                        if exp is not None:
+                            ref.pop(k, None)
+                        else:
+                            ref[k] = value
+
+                    def resp(cookies):
+                        hdrs = [(b"set-cookie", (f"{n}={v}" + (f"; Path={p_}" if p_ is not None else "") + (f"; {e}" if e else "")).encode()) for n, v, p_, e in cookies]
+                        f = tflow.tflow(req=tutils.treq(host="example.com", port=80, path=b"/set"), resp=tutils.tresp(headers=http.Headers(hdrs)))
+                        sc.response(f)
+                        for n, v, p_, e in cookies:
+                            apply(n, v, p_, e)
+
+                    resp([("sid", "old", first_path, None)])
+                    second = [("sid", f1[0], f1[1], f1[2]), ("sid", f2[0], f2[1], f2[2])]
+                    if other_first:
+                        second.insert(0, ("other", "x", None, None))
+                    resp(second)
+                    inp = {"first": ["sid=old", first_path], "second": [list(map(str, c)) for c in second]}
+                    b.case(("multi", first_path, f1, f2, other_first))
+                    for target in ("/", "/app/x"):
+                        q = tflow.tflow(req=tutils.treq(host="example.com", port=80, path=target.encode()))
+                        sc.request(q)
+                        got = q.request.headers.get("cookie", "")
+                        pairs = sorted(tuple(x.split("=", 1)) for x in got.split("; ")) if got else []
+                        want = sorted((n, v) for (n, pth), v in ref.items() if ref_path_match(target, pth))
+                        if pairs != want:
+                            b.fail("sticky.every_set_cookie_field_of_a_response_processed", dict(inp, request=target), f"Cookie: {got!r}, expected {want}")
